@@ -1128,6 +1128,30 @@ theorem chain_matching (R C : Int) (hR : 2 ≤ R) (hC : 2 ≤ C) (H : ToricL.Spe
     have h2 := hin x.2 (by unfold ends; exact List.mem_flatMap.mpr ⟨x, hx, by simp⟩)
     exact toricDistT_eq R C x.1 x.2 (by rw [h1, h2])
 
+/-! ### the toric generators are X-type or Z-type -/
+
+theorem toric_isCSS (R C : Int) (hR : 0 < R) (hC : 0 < C) : IsCSS (stabilizers R C) := by
+  intro row hrow
+  simp only [stabilizers, List.mem_map] at hrow
+  obtain ⟨i, _, rfl⟩ := hrow
+  have hid : (identity R C).length = 2 * (nQubits R C).toNat := by simp [identity, zeros]
+  unfold plaquette sites
+  by_cases hc : ((norm R C i).1 == primalIndex) = true
+  · right
+    have hop : plaquetteOp R C i = P1.Z := by unfold plaquetteOp; rw [if_pos hc]
+    rw [hop]
+    obtain ⟨g, hg⟩ := MwpmSplit.ZLike.foldl (nQubits R C).toNat (site R C P1.Z) (plaquetteSites R C i)
+      (fun a _ => by unfold site; exact MwpmSplit.ZLike.applyOp _ _)
+    rw [(hg _ hid).2.2, identity_eq_zeros, xHalf_zeros_two_mul]
+    exact isZero_zeros _
+  · left
+    have hop' : plaquetteOp R C i = P1.X := by unfold plaquetteOp; rw [if_neg hc]
+    rw [hop']
+    obtain ⟨g, hg⟩ := MwpmSplit.XLike.foldl (nQubits R C).toNat (site R C P1.X) (plaquetteSites R C i)
+      (fun a _ => by unfold site; exact MwpmSplit.XLike.applyOp _ _ (flatNat_lt R C hR hC a))
+    rw [(hg _ hid).2.2, identity_eq_zeros, zHalf_zeros_two_mul]
+    exact isZero_zeros _
+
 end Qec.ChainToric
 
 
@@ -1601,5 +1625,30 @@ theorem chain_matching_planar (R C : Int) (hR : 2 ≤ R) (hC : 2 ≤ C) (H : Pla
       (PlanarL.vnodes_out R C H t _ hds y hy).1.2)
   rw [chainEdgesP_length R C t e he] at hc
   exact ⟨M, hM, hc⟩
+
+/-! ### the planar generators are X-type or Z-type -/
+
+theorem planar_isCSS (R C : Int) (hR : 2 ≤ R) (hC : 2 ≤ C) : IsCSS (stabilizers R C) := by
+  intro row hrow
+  simp only [stabilizers, List.mem_map] at hrow
+  obtain ⟨rc, hrc, rfl⟩ := hrow
+  have hpl := ((mem_plaquetteIndices R C rc).mp hrc).1
+  have hid : (identity R C).length = 2 * (nQubits R C).toNat := by simp [identity, zeros]
+  have hidz : identity R C = zeros (2 * (nQubits R C).toNat) := rfl
+  have hf : MwpmSplit.PlanarFlattenBound R C := fun r c hb hs => flatten_toNat_lt R C r c hR hC hs hb
+  unfold sites
+  cases isPrimal rc.1 rc.2
+  · left
+    simp only [Bool.false_eq_true, if_false]
+    obtain ⟨g, hg⟩ := MwpmSplit.XLike.foldl (nQubits R C).toNat (site R C P1.X) (plaquetteSites rc.1 rc.2)
+      (fun a ha => MwpmSplit.planar_site_X R C hf a (allSites_plaquetteSites rc.1 rc.2 hpl a ha))
+    rw [(hg _ hid).2.2, hidz, zHalf_zeros_two_mul]
+    exact isZero_zeros _
+  · right
+    simp only [if_true]
+    obtain ⟨g, hg⟩ := MwpmSplit.ZLike.foldl (nQubits R C).toNat (site R C P1.Z) (plaquetteSites rc.1 rc.2)
+      (fun a _ => MwpmSplit.planar_site_Z R C a)
+    rw [(hg _ hid).2.2, hidz, xHalf_zeros_two_mul]
+    exact isZero_zeros _
 
 end Qec.ChainPlanar
